@@ -100,27 +100,56 @@ func vRunProc(t *testing.T, kind string) {
 			g := vNewGen(rnd)
 			g.maxRes, g.maxSc, g.maxIt, g.maxMet = 2, 2, 4, 2
 			cfg := &Config{}
-			// validated space with the corners size = 0, max = 0, timeout = 0
-			sbs := []uint32{0, 1, 2, 3, 5, 8}[rnd.IntN(6)]
-			max := uint32(0)
-			if rnd.IntN(3) != 0 {
-				max = sbs + uint32(rnd.IntN(4))
-				if max == 0 {
-					max = uint32(1 + rnd.IntN(3))
+			var sbs, max uint32
+			var timeoutUs int
+			var keyNames []string
+			if c%5 < 2 {
+				// RAW configuration space: nothing is pre-validated. 0 < max < size, max = 0, size = 0, negative timeout,
+				// case-insensitively duplicate keys, limit 0 ... The REAL Config.Validate() decides; the model's `validCfg`
+				// must decide the same (obs valid=), and every ACCEPTED configuration goes through all the oracles.
+				sbs = []uint32{0, 1, 2, 3, 5, 8, 10}[rnd.IntN(7)]
+				max = uint32(rnd.IntN(13))
+				timeoutUs = []int{-1000, 0, 0, 10_007, 50_003, 200_001}[rnd.IntN(6)]
+				pool := []string{"Tenant", "tenant", "ZONE", "zone", "Env"}
+				for k, nk := 0, rnd.IntN(4); k < nk; k++ {
+					keyNames = append(keyNames, pool[rnd.IntN(len(pool))])
+				}
+				cfg.MetadataCardinalityLimit = uint32(rnd.IntN(5))
+			} else {
+				// mostly-valid space with the corners size = 0, max = 0, timeout = 0
+				sbs = []uint32{0, 1, 2, 3, 5, 8}[rnd.IntN(6)]
+				if rnd.IntN(3) != 0 {
+					max = sbs + uint32(rnd.IntN(4))
+					if max == 0 {
+						max = uint32(1 + rnd.IntN(3))
+					}
+				}
+				timeoutUs = []int{0, 10_007, 50_003, 200_001}[rnd.IntN(4)]
+				if c%3 == 2 {
+					keyNames = [][]string{{"Tenant"}, {"tenant", "ZONE"}}[rnd.IntN(2)]
+					cfg.MetadataCardinalityLimit = uint32(rnd.IntN(4))
 				}
 			}
-			timeoutUs := []int{0, 10_007, 50_003, 200_001}[rnd.IntN(4)]
 			cfg.SendBatchSize, cfg.SendBatchMaxSize, cfg.Timeout = sbs, max, time.Duration(timeoutUs)*time.Microsecond
-			var keyNames []string
-			nkeys := 0
-			if c%3 == 2 {
-				nkeys = 1 + rnd.IntN(2)
-				keyNames = [][]string{{"Tenant"}, {"tenant", "ZONE"}}[nkeys-1]
-				cfg.MetadataKeys = keyNames
-				cfg.MetadataCardinalityLimit = uint32(rnd.IntN(4))
+			cfg.MetadataKeys = keyNames
+			nkeys := len(keyNames)
+			keyTok := "-"
+			if nkeys > 0 {
+				keyTok = strings.Join(keyNames, ",")
 			}
-			if err := cfg.Validate(); err != nil {
-				t.Fatalf("generated config invalid: %v", err)
+			out.Linef("case %d kind=%s", c, kind)
+			out.Linef("op cfgraw sbs=%d max=%d timeout=%d keys=%s limit=%d", sbs, max, timeoutUs, keyTok, cfg.MetadataCardinalityLimit)
+			verr := cfg.Validate()
+			out.Linef("obs valid=%d", vB(verr == nil))
+			if verr != nil || timeoutUs < 0 {
+				// rejected (or accepted with a negative timeout: nothing to run, the valid= line is the finding)
+				out.Linef("stat config_rejected 1")
+				out.Linef("end")
+				out.Flush()
+				return
+			}
+			if max > 0 && max < sbs {
+				out.Linef("stat accepted_max_below_size 1")
 			}
 			sink := &vSink{start: time.Now()}
 			for _, k := range keyNames {
@@ -160,7 +189,6 @@ func vRunProc(t *testing.T, kind string) {
 				}
 				consumeMetrics, shutdown = p.ConsumeMetrics, p.Shutdown
 			}
-			out.Linef("case %d kind=%s", c, kind)
 			out.Linef("op cfg kind=%s sbs=%d max=%d timeout=%d nkeys=%d limit=%d", kind, sbs, max, timeoutUs, nkeys, cfg.MetadataCardinalityLimit)
 			out.Linef("obs done")
 			groups := map[string]bool{}
